@@ -341,7 +341,19 @@ def run_json_option(case, d, rng, V, C, detail):
 
     def model_value(spec, id_="bdsk"):
         objs, dic = tt.load(spec)
-        return scalar(dic[id_](), "C09:json:%s:not-a-number" % opt, "model()")
+        first = scalar(dic[id_](), "C09:json:%s:not-a-number" % opt, "model()")
+        # the same model evaluated again after a change notification that changes no value: same density
+        from torchtree import Parameter
+
+        for pid, o in dic.items():
+            if type(o) is Parameter and str(pid).startswith(("bdsk.", "bd.", "R", "delta", "s", "lambda", "mu", "psi", "rho", "origin")):
+                o.tensor = o.tensor.clone()
+                break
+        again = scalar(dic[id_](), "C09:json:%s:not-a-number" % opt, "model()")
+        C["re_evaluations"] = C.get("re_evaluations", 0) + 1
+        if np.isfinite(first) and abs(again - first) > 1e-12 * max(1.0, abs(first)):
+            V.append(tt.viol("C09:re-evaluation:%s" % opt, "the model built from JSON gives %.12g, and %.12g when evaluated again after a change notification that changed no value" % (first, again), **detail))
+        return first
 
     def judge(got, expected, what, tag=""):
         C["json_option_checks"] += 1
